@@ -32,14 +32,17 @@ fn space_for(tier: Tier) -> (Space, usize) {
     let mut s = Space::new();
     match tier {
         Tier::Quick => {
-            s.ast("GC", 5, 64).ast("K", 4, 64).ast("NEST", 6, 64).ast("CAPQ", 4, 64).ast("ALTC", 5, 64);
-            s.ast_range("GCM", 1, 5, 64, 1).ast_range("GCE", 1, 3, 64, 1);
+            s.ast("GC", 6, 64).ast("K", 5, 64).ast("U", 4, 64).ast("NEST", 7, 64).ast("CAPQ", 5, 64).ast("ALTC", 6, 64);
+            s.ast_range("GCM", 1, 5, 64, 1).ast_range("GCE", 1, 4, 64, 1);
             s.list("ladder", LADDER.len() as u64, 1);
-            (s, 3)
+            (s, 4)
         }
         Tier::Thorough => {
             s.ast("GC", 6, 64).ast("K", 5, 64).ast("U", 4, 64).ast("NEST", 7, 64).ast("CAPQ", 5, 64).ast("ALTC", 6, 64);
             s.ast_range("GCM", 1, 5, 64, 1).ast_range("GCE", 1, 4, 64, 1);
+            // deeper layers restricted (by the shape of the pattern, decided by the
+            // reference parser) to patterns without a group inside a repetition
+            s.ast_range("GC", 7, 7, 256, 2).ast_range("ALTC", 7, 7, 64, 2).ast_range("NEST", 8, 8, 64, 2).ast_range("CAPQ", 6, 6, 256, 2).ast_range("K", 6, 6, 256, 2);
             s.list("ladder", LADDER.len() as u64, 1);
             (s, 4)
         }
@@ -327,6 +330,10 @@ impl Check for C03 {
                 None => return,
             };
             if parsed.groups == 0 || parsed.ast.has_backref() || parsed.ast.has_nullable_loop() {
+                return;
+            }
+            if seg.param == 2 && parsed.ast.has_group_in_rep() {
+                out.inc("restricted_layer_skipped");
                 return;
             }
             out.shape = parsed.ast.shape();
